@@ -180,7 +180,9 @@ def run(module: str, cfg: str | None = None, *, cfg_text: str | None = None, wor
                 r.coverage[m.group(1)] = (int(m.group(3)), int(m.group(4)))
         # rc: 0 ok; 10 assumption; 11 deadlock; 12 safety; 13 liveness; >=75 real errors
         if p.returncode not in (0, 11, 12, 13) or (p.returncode == 0 and not ms and simulate is None):
-            raise TLCFailure(f'TLC failed rc={p.returncode}: {" ".join(cmd)}\n{out[-4000:]}')
+            i = out.find('Error:')
+            raise TLCFailure(f'TLC failed rc={p.returncode}: {" ".join(cmd)}\n'
+                             + (out[i:i + 2500] if i >= 0 else out[-4000:]))
         return r
     finally:
         shutil.rmtree(scratch, ignore_errors=True)
